@@ -45,8 +45,11 @@ def sumGo : F → List F → F
 
 def sum (l : List F) : F := sumGo (Num.ofNat 0) l
 
-/-- `f32::max` (no NaN operands here) -/
-def fmax (a b : F) : F := if Num.lt a b then b else a
+/-- `f32::max`: a NaN operand is IGNORED (the other operand is returned, NaN only if both are);
+otherwise the larger one. (The maxima above are comparison based instead: there a NaN element
+wins or loses depending on its position, exactly as `maxGo` does with `Num.lt`.) -/
+def fmax (a b : F) : F :=
+  if Num.isNaN a then b else if Num.isNaN b then a else if Num.lt a b then b else a
 
 inductive Combiner where
   | funSimAvg | funSimMax | bma
